@@ -203,7 +203,7 @@ func genCommand0(r *core.Rand, doc *ref.Doc, env MEnv, allowPause bool) MCmd {
 
 // genEnv draws the environment (clock near the documents' dates, optional configuration).
 func genEnv(r *core.Rand, today ref.Date) MEnv {
-	env := MEnv{Today: today, Minute: r.Intn(1440), Second: r.PickInt(0, 1, 30, 59), Cpus: r.PickInt(1, 1, 1, 2, 8)}
+	env := MEnv{Today: today, Minute: r.Intn(1440), Second: r.PickInt(0, 1, 30, 59), Cpus: r.PickInt(1, 1, 2, 3, 4, 8)}
 	switch r.Intn(10) {
 	case 0:
 		env.Minute = r.PickInt(0, 1, 1438, 1439, 719, 720, 721)
